@@ -469,10 +469,15 @@ def all_cases(tier, rng):
 
 def run(tier, seed, build):
     res = common.Result(PID)
-    res.rule = ("exhaustive: every tree spec of depth <= D (D=2 quick, 3 thorough) over one shape per (ast.expr class, "
+    res.rule = ("stage N (namers) — exhaustive: every tree spec of depth <= D (D=2 quick, 3 thorough) over one shape per (ast.expr class, "
                 "child slot), the four getattr-family builtins with literal / variable / missing / extra arguments in every "
                 "slot the namers read, representatives in the slots they ignore; plus seeded random trees to depth 8. "
-                "non-trivial = distinct tree with at least one compound step (depth >= 1)")
+                "non-trivial = distinct tree with at least one compound step (depth >= 1). "
+                "stage S (consumer sites, py/props/c10sites.py) — every reference to a namer in the source is enumerated (Tie A) and "
+                "classified by the model's table; for every slot family x every compound expression (exhaustive over {.attr,[sub],(call)} "
+                "to depth 2 quick / 3 thorough + curated + seeded random chains to 6 steps with slices, keywords, stand-in bases) one probe, "
+                "observed in the FunctionAnalyser IR (names with basenames, call records), in the printed results of the whole file "
+                "(in-process and CLI) and through a followed import; non-trivial = distinct (channel, slot, compound expression)")
     impl.reset_config()
     rng = random.Random(seed)
     trees, n_exh, n_rand = all_cases(tier, rng)
@@ -538,6 +543,11 @@ def run(tier, seed, build):
             res.count("verdict:" + sig.split(":")[0] + ":" + sig.split(":")[1])
             res.violations.append({"signature": sig, "case": case, "detail": detail, "impl": im, "readme": want})
 
+    # ------------------------------------------------------------------ stage S: the consumers of the namers
+    from props import c10sites
+
+    c10sites.run_stage(res, tier, rng, model)
+
     missing = sorted(classes - covered)
     if missing:
         res.internal_errors.append({"what": "generator does not cover every ast.expr class", "missing": missing})
@@ -550,6 +560,13 @@ def run(tier, seed, build):
         "[interp] error.fatal (SystemExit) under safe=True counts as 'raises' for clause (c)",
         "functools.lru_cache on node identity is transparent for unmutated trees (checked: second call, and a fresh equal tree with cold caches)",
         "unravel_attr_access_calls=False is compared model-vs-implementation only (the property does not speak about it)",
+        "[interp] stage S: 'wherever rattr reports a name' = the FunctionAnalyser's IR (Name.name / Name.basename, Call.name, call argument "
+        "spellings), the printed `-o results` document (sections and keys) and the names substituted into a caller; for an expression E in a "
+        "reporting slot the documented name is Spec.spell E with base Spec.base E; names rooted at E's base other than E's spelling, the "
+        "spellings of the prefixes of E's spine and the slot's derived names (initialiser attributes, callee parameter attributes) are undocumented",
+        "[interp] stage S does not judge names that need TWO levels of substitution (callee of a callee): that is C03's subject",
+        "stage S probes are getattr-family-free (the namer-level stage owns those); strict-naming slots (assignment targets, getattr objects) "
+        "only get variable-based expressions, safe-naming slots also '@' stand-in bases",
     ]
     return res
 
@@ -558,6 +575,11 @@ def replay(path):
     j = json.load(open(path))
     case = j.get("case") or j.get("input") or {}
     spec = case.get("tree")
+    if spec is None and case.get("stage") == "sites":
+        from props import c10sites
+
+        impl.reset_config()
+        return c10sites.replay_case(case)
     if spec is None:
         print(json.dumps(j, indent=1))
         return 0
